@@ -37,6 +37,8 @@ void h_hash_float(void) {
 uint64_t cv_hd_ret; const void* cv_hd_p; size_t cv_hd_n; int cv_hd_calls;
 uint64_t cv_hash_data(const void* data, size_t size) { cv_hd_p = data; cv_hd_n = size; cv_hd_calls++; return cv_hd_ret; }
 
+struct Odd12 { int a, b, c; };          /* a plain user type whose size is not a multiple of the word size */
+static var Odd12 = Cello(Odd12);
 void h_hash_default(void) {
   OBJ(Ref, A); OBJ(Box, B);
   var a = MK(A, Ref, AllocStack), b = MK(B, Box, AllocData);
@@ -46,5 +48,9 @@ void h_hash_default(void) {
   ASSERT(cv_hd_calls == 1 && cv_hd_p == a && cv_hd_n == sizeof(struct Ref) && h == cv_hd_ret, "default hash = hash_data over size(type) bytes of the object (Ref)");
   h = hash(b);
   ASSERT(cv_hd_calls == 2 && cv_hd_p == b && cv_hd_n == sizeof(struct Box) && h == cv_hd_ret, "default hash = hash_data over size(type) bytes of the object (Box)");
-  COVER(cv_hd_calls == 2, "default hash reached");
+  static struct { struct Header h; struct Odd12 v; char after[8]; } O;
+  var o = header_init(&O.h, Odd12, AllocStack);
+  h = hash(o);
+  ASSERT(cv_hd_calls == 3 && cv_hd_p == o && cv_hd_n == sizeof(struct Odd12) && sizeof(struct Odd12) == 12 && h == cv_hd_ret, "[C10] default hash = hash_data over exactly size(type) bytes of the object, also when the size is not a multiple of the word size (nothing after the object is read)");
+  COVER(cv_hd_calls == 3, "default hash reached");
 }
